@@ -333,7 +333,7 @@ inline int run_all(char const* module_comment, std::ostream& out, std::ostream& 
 		while (more) {
 			g.reset_path();
 			Ctx<TraceFam> c; PathRes pr;
-			try { e.tr(c); for (auto const& o : c.outs) pr.outs.push_back(o.node); }
+			try { e.tr(c); for (auto const& o : c.outs) { if (o.node >= g.nodes.size()) throw Untraceable("uninitialised value returned"); pr.outs.push_back(o.node); } }
 			catch (Untraceable const& u) { pr.abort = u.what(); }
 			pr.dec = g.path; pr.pre = g.pre;
 			paths.push_back(pr);
